@@ -273,6 +273,10 @@ M('c02-guard-flipped', ['C02'], Y23 + 'f1040.py', "FloatField('34', lambda s, i,
 M('c02-reordered-summands', ['C02'], Y23 + 'f1040.py', "FloatField('14', lambda s, i, v: v['12'] + v['13']),", "FloatField('14', lambda s, i, v: float(v['13'] + v['12'])),", None, 'summands reordered and wrapped in float()', 'silent')
 M('c02-guarded-floor', ['C02'], Y23 + 'f1040.py', "FloatField('22', lambda s, i, v: max(0.0, v['18'] - v['21'])),", "FloatField('22', lambda s, i, v: v['18'] - v['21'] if v['18'] > v['21'] else 0.0),", None, 'floor written as a guarded subtraction', 'silent')
 
+# ------------------------------------------------------------------ K29 (the prompt quotes the waiting lines)
+M('k29-instance-from-the-input', ['C13'], CLI, "        instance = f'Instance \\'{f.form().instance()}\\' of ' if f.form().instance() else ''\n", "", 'K29', 'the form-copy label of each quoted line is no longer computed per waiting line', more=[(CLI, "    duplicates = {}\n", "    duplicates = {}\n    instance = f'Instance \\'{missing.section()}\\' of '\n")])
+M('k29-loop-variable-renamed', ['C13'], CLI, "    for f in needed_by:\n        form_desc = f.form().full_description()\n        field_basename = f.base_name()\n        instance = f'Instance \\'{f.form().instance()}\\' of ' if f.form().instance() else ''\n", "    for waiter in needed_by:\n        wform = waiter.form()\n        form_desc = wform.full_description()\n        field_basename = waiter.base_name()\n        instance = f'Instance \\'{wform.instance()}\\' of ' if wform.instance() else ''\n", None, 'loop variable renamed and the form hoisted into a local', 'silent')
+
 # ------------------------------------------------------------------ K28 (threshold lookups keep no state) and constructor unpacking
 M('k28-shared-threshold-memo', ['C17', 'C08'], 'habutax/form.py', "    def threshold(self, name, requested_key=None):\n", "    _memo = {}\n\n    def threshold(self, name, requested_key=None):\n        if (name, requested_key) in self._memo:\n            return self._memo[(name, requested_key)]\n        self._memo[(name, requested_key)] = self._threshold(name, requested_key)\n        return self._memo[(name, requested_key)]\n\n    def _threshold(self, name, requested_key=None):\n", 'K28', 'threshold lookups memoised in a dict shared by all forms, keyed without the form (seed C17-D)', accept_error=True)
 M('r173-unpack-wrong-length', ['C17'], Y23 + 'f8889.py', "        you = \"you\" if instance == \"you\" else \"your spouse\"\n", "        you, _your = {'you': ('you', 'your'), 'spouse': ('your spouse',)}[instance]\n", 'R17.3', 'constructor unpacks a tuple of the wrong length for one allowed instance (seed C17-C)')
@@ -340,6 +344,8 @@ M('c15-nc-floor-as-guard', ['C15'], Y23 + 'fnc_d_400.py', "FloatField('15', lamb
 M('c15-s3-capped-at-tax', ['C15'], Y23 + 'f1040_s3.py', "            return foreign_tax if foreign_tax > 0.001 else None\n", "            foreign_tax = min(foreign_tax, v['1040.16'])\n            return foreign_tax if foreign_tax > 0.001 else None\n", None, 'Schedule 3 line 1 limited to the tax (repair of the known finding F26): the repaired tree must be quiet', 'silent')
 
 # ------------------------------------------------------------------ C16
+M('c16-election-threshold-differs', ['C16'], Y23 + 'f1040.py', "(v['1040_sa.17'] >= standard_deduction(s, i) or i['1040_sa.itemize_though_less'])", "(v['1040_sa.17'] >= standard_deduction(s, i) - 500.0 or i['1040_sa.itemize_though_less'])", 'R16.6', 'itemizing is chosen from 500 below the standard deduction: a larger Schedule A total can lower line 12')
+M('c16-election-written-the-other-way', ['C16'], Y23 + 'f1040.py', "(v['1040_sa.17'] >= standard_deduction(s, i) or i['1040_sa.itemize_though_less'])", "(not (standard_deduction(s, i) > v['1040_sa.17']) or i['1040_sa.itemize_though_less'])", None, 'same comparison written from the other side', 'silent')
 M('c16-first-copies-summed', ['C16'], Y22 + 'f1040.py', "            for n in range(i['number_1099-r']):\n                if not v[f'1099-r:{n}.box_7_ira_sep_simple']:", "            for n in range(i['number_1099-r']):\n                if n > 0 and not v[f'1099-r:{n}.box_7_ira_sep_simple']:", 'R16.1', 'copy number 0 is treated differently')
 M('c16-index-weight', ['C16'], Y23 + 'f1040.py', "FloatField('2a', lambda s, i, v: float(sum([v[f'1099-int:{n}.box_8'] for n in range(i['number_1099-int'])]))),", "FloatField('2a', lambda s, i, v: float(sum([v[f'1099-int:{n}.box_8'] * (n + 1) for n in range(i['number_1099-int'])]))),", 'R16.1', 'the index is used in arithmetic')
 M('c16-fixed-copy', ['C16'], Y23 + 'f1040.py', "FloatField('26', lambda s, i, v: i['estimated_tax_payments']),", "FloatField('26', lambda s, i, v: i['estimated_tax_payments'] + v['w-2:0.box_17'] * 0.0),", 'R16.2', 'a line addresses W-2 number 0 by position')
